@@ -90,6 +90,16 @@ theorem others_frame (L prog) (hd : Disjoint L prog) (t : Tid) (σ : List Tid) (
     (run L prog σ s).text f = s.text f ∧ (run L prog σ s).patches f = s.patches f :=
   others_frame_run L prog hd t σ hσ s f hf
 
+/-- **nobody's target never changes**: a location that no thread of the system writes (a function that is not a target of
+    any builder — e.g. a callee of a mocked function literal, or an unmocked neighbour on the same page) keeps its text
+    and has no patch-table entry created, from any state, in every interleaving.  "Each apply or reset affects its own
+    targets only", for the locations outside ALL target sets.  (That a Go target value denotes the location the probe
+    says it does — function literals, generic instantiations of distinct GC shapes — is checked by the rounds: their
+    callee `c11Ident` is called by other goroutines and must never change.) -/
+theorem untargeted_unchanged (L prog) (σ : List Tid) (s : St) (f : Loc) (hf : ∀ u, ¬ Writes L prog u f) :
+    (run L prog σ s).text f = s.text f ∧ (run L prog σ s).patches f = s.patches f :=
+  nowriter_frame_run L prog σ s f hf
+
 /-- **isolation**: for every schedule and every thread `t`, the patch-table entries and the text of all locations
     `t` mentions, and `t`'s own control state, are exactly those of a run in which ONLY `t` was scheduled (`solo`), for
     some number `n` of slots — i.e. the projection of any interleaved run on a thread's targets equals its sequential
@@ -304,6 +314,21 @@ example (σ : List Tid) (t ip : Nat) (res : Option Nat) (h : (t, ip, res) ∈ (r
       | u + 3 => simp [exProg] at hs
   rw [hres nw.1 nw.2]
   exact callAt_ret exLayout exMocked 3 a' 9 (fun _ => rfl) (by simp [exMocked, upd])
+
+/-- `untargeted_unchanged` is not vacuous: in the example system location 3 (called by thread 2) is nobody's target,
+    while its neighbours 1 and 2 on the same pages are patched and unpatched -/
+example (σ : List Tid) : (run exLayout exProg σ exMocked).text 3 = .jump (.ret 9) := by
+  have nw : ∀ u, ¬ Writes exLayout exProg u 3 := by
+    intro u ⟨sec, hs, hw⟩
+    match u with
+    | 0 | 1 | 2 =>
+      simp only [exProg, List.mem_cons, List.not_mem_nil, or_false] at hs
+      rcases hs with rfl | rfl | rfl | rfl <;>
+        simp only [writesOf, exLayout, if_true, List.mem_cons, List.not_mem_nil, or_false, Bool.false_eq_true, if_false] at hw <;>
+        first | (exfalso; exact hw) | (rcases hw with hw | hw <;> simp at hw) | simp at hw
+    | u + 3 => simp [exProg] at hs
+  rw [(untargeted_unchanged exLayout exProg σ exMocked 3 nw).1]
+  simp [exMocked, upd]
 
 /-- a concrete interleaving with lock contention (thread 1 is scheduled while thread 0 holds the lock) -/
 example : ((run exLayout exProg [0, 1, 0, 1, 0, 0, 0, 0, 1, 2, 0, 0, 0, 0, 0, 0, 0, 0, 0, 0, 0, 0, 0, 0, 0, 0, 0, 0, 0] start).calls.map (·.2.2))
